@@ -194,7 +194,7 @@ def _dump(model):
     return conv(model.model_dump())
 
 
-def run_traced(job):
+def run_traced(job, opt=None):
     """job: {name, specs, objective, minmax, weights, seed, cfg: {overrides}, mode, workers, trace: bool}"""
     warnings.filterwarnings("ignore")
     np.seterr(all="ignore")
@@ -216,7 +216,8 @@ def run_traced(job):
             gen.CALL_LOGS[id(calls)] = calls
     try:
         task = build_task(job)
-        opt = optimizers.make(job["name"], **job.get("cfg", {}))
+        if opt is None:
+            opt = optimizers.make(job["name"], **job.get("cfg", {}))
     except Exception as e:  # construction problems are reported, not raised
         out["setup_error"] = f"{type(e).__name__}: {e}"
         return out
